@@ -305,7 +305,9 @@ def extract(res):
             pad = getattr(npu_op, "padding", None) if npu_op is not None else None
             ep = op.attrs.get("explicit_padding", None)
             wo = op.write_offset
-            ro, rs = op.read_offsets[0], op.read_shapes[0]
+            # create_npu_elementwise_op swaps cmd.ifm/ifm2 (tensors, boxes, ps.ifm_shapes) when the broadcast operand came first
+            swapped = bool(npu_op is not None and getattr(npu_op, "reversed_operands", False) and not c.reversed_operands)
+            ro, rs = (op.read_offsets[1], op.read_shapes[1]) if swapped else (op.read_offsets[0], op.read_shapes[0])
             mode = {resampling_mode.NONE: 0, resampling_mode.NEAREST: 1, resampling_mode.TRANSPOSE: 2}[op.ifm_resampling_mode]
             ifm_shape = ps.ifm_shapes[0]
             rec = {
@@ -329,7 +331,7 @@ def extract(res):
                 "ifm_tid": tid(c.ifm_tensor, ifm_shape.as_list()), "ifm_B": stor_h(c.ifm_tensor, ifm_shape.as_list()),
                 "ofm_tid": tid(c.ofm_tensor, ps.ofm_shapes[0].as_list()), "ofm_B": stor_h(c.ofm_tensor, ps.ofm_shapes[0].as_list()),
                 "ifm_rank": len(c.ifm_tensor.storage_shape), "ofm_rank": len(c.ofm_tensor.storage_shape),
-                "has_ifm2": c.ifm2_tensor is not None,
+                "has_ifm2": c.ifm2_tensor is not None, "swapped": swapped,
                 "ifm2_shape": [int(x) for x in ps.ifm_shapes[1].as_list()] if len(ps.ifm_shapes) > 1 and ps.ifm_shapes[1] is not None else None,
                 "ofm_stride_multiplier": op.attrs.get("ofm_stride_multiplier", None) is not None or getattr(op, "ofm_stride_multiplier", None) not in (None, [1, 1, 1]),
                 "ifm_stride_multiplier": getattr(op, "ifm_stride_multiplier", None) not in (None, [[1, 1, 1], [1, 1, 1]]),
@@ -356,7 +358,12 @@ def extract(res):
                 ps_ids = {id(so.parent_ps): i for i, so in enumerate(g)}
                 linear = all(g[i].ifm.connection.producers and g[i].ifm.connection.producers[0] is g[i - 1] for i in range(1, len(g)))
                 descs = [opdesc_token(opdesc(so, sched)) for so in g]
-                real = [cmd_token(ps_ids[id(c.ps)], c.ofm_box, c.ifm_box, c.pad_top, c.pad_bottom)
+                def orig_ifm_box(c):
+                    n = cmd_to_npu.get(id(c))
+                    sw = n is not None and getattr(n, "reversed_operands", False) and not c.reversed_operands
+                    return c.ifm2_box if sw else c.ifm_box
+
+                real = [cmd_token(ps_ids[id(c.ps)], c.ofm_box, orig_ifm_box(c), c.pad_top, c.pad_bottom)
                         for c in sg.high_level_command_stream if isinstance(c, NpuStripe) and id(c.ps) in ps_ids]
                 buf = []
                 for i in range(1, len(g)):
